@@ -454,6 +454,7 @@ func genC17Base64(c *Ctx, g *c17Gen) {
 		c.Run("C17.b64_encode", [][]byte{B("0"), b}, "C17.b64_encode", "", desc)
 		c.Run("C17.b64_encode", [][]byte{B("1"), b}, "C17.b64_encode", "", desc)
 		c.Run("C17.b64_roundtrip", [][]byte{b}, "C17.b64_roundtrip", "C17.prop.b64_roundtrip", desc)
+		c.Run("C17.b64_sequence", [][]byte{b}, "C17.b64_roundtrip", "C17.prop.b64_roundtrip", desc+" into a variable holding an earlier value")
 		c.Count("b64/encode/" + strings.SplitN(desc, " ", 2)[0])
 	}
 	enc([]byte{}, "len0")
